@@ -5,7 +5,8 @@ Rec == ndJsonDeserialize(IOEnv.TRACE)
 Verdict(r) == [sel   |-> RefSel(r.len, r.rs, r.excl),
                unamb |-> Unambiguous(r.len, r.rs, r.excl),
                q1    |-> r.excl /\ Q1(r.len, r.rs),
-               q2    |-> r.excl /\ Q2(r.len, r.rs)]
+               q2    |-> r.excl /\ Q2(r.len, r.rs),
+               qi    |-> ~r.excl /\ QI(r.len, r.rs)]
 Out == [i \in 1..Len(Rec) |-> Verdict(Rec[i])]
 ASSUME ndJsonSerialize(IOEnv.OUT, Out)
 ====
